@@ -3,7 +3,10 @@
 package c02
 
 import (
+	"fmt"
+	"math/big"
 	"math/rand"
+	"strconv"
 	"strings"
 
 	"verifharness/bftsim"
@@ -29,6 +32,12 @@ func (prop) Generate(rng *rand.Rand, tier string) []corr.Case {
 			mb = maxBlocks * 4
 		}
 		cases = append(cases, corr.Case{Ops: bftsim.GenChain(rng, mb), Tag: "chain"})
+	}
+	// BFT weights near the uint64 limits (aggregate near 2^63 / 2^64 / beyond); generated after the
+	// chain cases so that those are unchanged for a given seed
+	for i := 0; i < n/5; i++ {
+		ops, _ := bftsim.GenHeavy(rng, 3*maxBlocks/4)
+		cases = append(cases, corr.Case{Ops: ops, Tag: "heavy"})
 	}
 	return cases
 }
@@ -62,9 +71,77 @@ func atoi(s string) int {
 	return n
 }
 
+// checkThresholds is the model-free oracle for `setparams` (LIP-0058 with exact arithmetic): the
+// parameters are accepted iff the validator set fits the batch size, all weights are positive, the
+// exact aggregate weight W fits into a uint64 and floor(W/3)+1 <= threshold <= W for both
+// thresholds; the stored prevote threshold is floor(2W/3)+1.
+func checkThresholds(batch int, op, out string, i int) []corr.Fail {
+	w := strings.Fields(op)
+	pc, _ := new(big.Int).SetString(w[1], 10)
+	ct, _ := new(big.Int).SetString(w[2], 10)
+	total := new(big.Int)
+	n, positive := 0, true
+	if w[3] != "-" {
+		for _, item := range strings.Split(w[3], ",") {
+			x, _ := new(big.Int).SetString(strings.Split(item, ":")[1], 10)
+			if x.Sign() <= 0 {
+				positive = false
+			}
+			total.Add(total, x)
+			n++
+		}
+	}
+	lo := new(big.Int).Add(new(big.Int).Div(total, big.NewInt(3)), big.NewInt(1))
+	within := func(t *big.Int) bool { return lo.Cmp(t) <= 0 && t.Cmp(total) <= 0 }
+	valid := n <= batch && positive && total.BitLen() <= 64 && within(pc) && within(ct)
+	accepted := strings.HasPrefix(out, "ok ")
+	if accepted != valid {
+		sig := "bft-params-accepted-invalid"
+		if valid {
+			sig = "bft-params-rejected-valid"
+		}
+		if accepted && total.BitLen() > 64 {
+			sig = "bft-aggregate-weight-overflow"
+		}
+		return []corr.Fail{{Sig: sig, Detail: op + ": " + out, Op: i}}
+	}
+	if accepted && n > 0 {
+		// the newest parameter entry " h=prevote/precommit/cert[" with these thresholds must carry floor(2W/3)+1
+		want := new(big.Int).Add(new(big.Int).Div(new(big.Int).Mul(total, big.NewInt(2)), big.NewInt(3)), big.NewInt(1))
+		suffix := fmt.Sprintf("/%s/%s[", w[1], w[2])
+		sec := strings.Split(out, " |")
+		if len(sec) >= 4 {
+			ok := false
+			for _, e := range strings.Fields(sec[3]) {
+				k := strings.Index(e, "=")
+				j := strings.Index(e, "[")
+				if k < 0 || j < 0 || !strings.HasSuffix(e[:j+1], suffix) {
+					continue
+				}
+				if strings.HasPrefix(e[k+1:], want.String()+"/") {
+					ok = true
+				}
+			}
+			if !ok {
+				return []corr.Fail{{Sig: "bft-prevote-threshold", Detail: op + ": want " + want.String() + " in " + sec[3], Op: i}}
+			}
+		}
+	}
+	return nil
+}
+
 func (prop) RunImpl(c corr.Case) ([]string, []corr.Fail) {
 	out := run(c)
 	var fails []corr.Fail
+	batch := 0
+	for i, op := range c.Ops {
+		if strings.HasPrefix(op, "reset ") {
+			batch, _ = strconv.Atoi(strings.Fields(op)[1])
+		}
+		if strings.HasPrefix(op, "setparams ") {
+			fails = append(fails, checkThresholds(batch, op, out[i], i)...)
+		}
+	}
 	// determinism: a second, independently constructed node fed the same chain reports the same state
 	out2 := run(c)
 	for i := range out {
@@ -116,6 +193,27 @@ func (prop) Classify(c corr.Case, out []string) string {
 		if w[0] == "setparams" && blocks > 0 && strings.HasPrefix(o, "ok ") {
 			changes++
 		}
+	}
+	if c.Tag == "heavy" {
+		okp, errp := 0, 0
+		for i, o := range out {
+			if strings.HasPrefix(c.Ops[i], "setparams") {
+				if strings.HasPrefix(o, "ok ") {
+					okp++
+				} else {
+					errp++
+				}
+			}
+		}
+		switch {
+		case okp > 0 && adv:
+			return "heavy-weights+finality"
+		case okp > 0:
+			return "heavy-weights-accepted"
+		case errp > 0:
+			return "heavy-weights-rejected"
+		}
+		return ""
 	}
 	switch {
 	case adv && changes > 0:
